@@ -81,6 +81,48 @@ func c01eConditionRequired(c *Ctx) {
 		}
 		c.Check(isConst && req.Value != nil && req.Value.String() == "true", key, c.W.Pos(ci.Pos()), "the condition is required here", f.Name()+" parses its condition as optional: 'if { ... }' would be accepted and lowered as a jump to chunk -1")
 	}
+	// ... and the condition parser honours it: when it is told the expression is required, no
+	// successful way through it leaves the node without one
+	var req *ssa.Parameter
+	for _, p := range pce.Params {
+		if b, ok := p.Type().Underlying().(*types.Basic); ok && b.Kind() == types.Bool {
+			req = p
+		}
+	}
+	sts := storesToField(pce, "ast", "ConditionExpression", "Expression")
+	if req == nil || len(sts) == 0 {
+		c.Bad("condition-required/honoured", c.W.FuncPos(pce), "parseConditionExpression has no boolean parameter / never stores the expression: the clause cannot be stated")
+	} else {
+		isStore := func(in ssa.Instruction) bool {
+			st, ok := in.(*ssa.Store)
+			if !ok {
+				return false
+			}
+			for _, x := range sts {
+				if x == st {
+					if k, isC := st.Val.(*ssa.Const); isC && k.IsNil() {
+						return false
+					}
+					return true
+				}
+			}
+			return false
+		}
+		w, found := existsPath(pathQuery{from: entry(pce), avoid: isStore, exitIs: true, target: func(ssa.Instruction) bool { return false }, edgeOK: func(b *ssa.BasicBlock, succ int) bool {
+			if !notErrorEdge(b, succ) {
+				return false
+			}
+			if ifi, ok := b.Instrs[len(b.Instrs)-1].(*ssa.If); ok && ifi.Cond == ssa.Value(req) {
+				return succ == 0 // the expression is required
+			}
+			return true
+		}})
+		why := ""
+		if found {
+			why = "told that the expression is required, parseConditionExpression can still return successfully (" + c.nearPos(w) + ") without having stored one: 'if { ... }' is accepted and lowered as a jump to chunk -1"
+		}
+		c.Check(!found, "condition-required/honoured", c.W.FuncPos(pce), "with the expression required, every successful return has stored one", why)
+	}
 	c.Check(n >= 3, "condition-required/sites", c.W.FuncPos(pce), "call sites of the condition parser examined", fmt.Sprintf("expected at least 3 calls of parseConditionExpression, found %d", n))
 }
 
@@ -388,9 +430,31 @@ func c01eIf(c *Ctx, splitFn, sbe *ssa.Function) {
 			inner, isCall := ex.Tuple.(*ssa.Call)
 			if !isCall || callee(inner) != sbe || !strings.HasPrefix(c.term(fn, inner.Call.Args[0]), "$0.ElifConsequences[") {
 				ok = false
+				continue
 			}
 		}
 		return ok
+	}
+	// carriedAll: ... of every one of them: the entry each elif condition call returns is among
+	// the values the failure target can take (a call whose entry id is dropped leaves its
+	// condition chunks without anybody jumping to them)
+	carriedAll := func(v ssa.Value) bool {
+		carried := map[*ssa.Call]bool{}
+		var leaves []ssa.Value
+		phiLeaves(v, map[ssa.Value]bool{}, &leaves)
+		for _, lf := range leaves {
+			if ex, isEx := lf.(*ssa.Extract); isEx && ex.Index == 2 {
+				if inner, isCall := ex.Tuple.(*ssa.Call); isCall {
+					carried[inner] = true
+				}
+			}
+		}
+		for _, call := range callsToIn(fn, sbe) {
+			if cc, isC := call.(*ssa.Call); isC && strings.HasPrefix(c.term(fn, cc.Call.Args[0]), "$0.ElifConsequences[") && !carried[cc] {
+				return false
+			}
+		}
+		return true
 	}
 	covered := map[string]bool{}
 	// classify the condition calls
@@ -427,6 +491,7 @@ func c01eIf(c *Ctx, splitFn, sbe *ssa.Function) {
 					switch {
 					case f.hasElif:
 						covered["if/elif"] = true
+						c.Check(carriedAll(a[3]), key+"/failure(elif)/every-entry-carried", pos, "the entry id of every elif condition call is carried towards the if condition", "the entry id returned by some elif condition call never reaches the failure target of the if condition: that elif's condition is wired but nothing jumps to it")
 						c.Check(chainOK(gl.v), key+"/failure(elif)", pos, "if condition false -> entry of the first elif condition", "with elif blocks present the if condition's failure target is "+pretty(t)+", which is not the entry id computed for the elif conditions")
 					case f.noElif && f.elseNonNil:
 						covered["if/else"] = true
@@ -522,6 +587,7 @@ func c01eIf(c *Ctx, splitFn, sbe *ssa.Function) {
 						covered["elif/chain"] = true
 						sawChain = true
 						// previous iteration's entry id (reverse order)
+						c.Check(carriedAll(a[3]), key+"/failure(chain)/every-entry-carried", pos, "the entry id of every elif condition call is carried to the elif before it", "the entry id returned by some elif condition call never reaches the failure target of the elif before it: that elif's condition is wired but nothing jumps to it")
 						c.Check(chainOK(gl.v), key+"/failure(chain)", pos, "elif k false -> entry of elif k+1 (computed in the previous, higher-index iteration)", "non-last elif failure target "+pretty(t)+" is not the entry id of the following elif condition")
 					default:
 						c.Unk(key+"/failure", pos, "cannot classify the guards of this elif condition call: "+strings.Join(gl.must, " "))
